@@ -188,6 +188,22 @@ class _StallingContext(object):
             except (OSError, IOError):
                 pass
             raise EOFError()
+        if a[0] == 'trickle' and a[2][0] == 'raw':
+            # the first bytes of a handshake record, one at a time, never completed
+            first = True
+            try:
+                for i in range(len(a[2][1])):
+                    sock.sendall(a[2][1][i:i + 1])
+                    self.ds.trickled += 1
+                    if first:
+                        self.ds._begin_stall('tlshandshake', 'trickle')
+                        first = False
+                    gevent.sleep(a[1])
+                while sock.recv(4096):
+                    pass
+            except (OSError, IOError):
+                pass
+            raise EOFError()
         if self.ds.bio_tls:
             bs = BioTlsSocket(sock, self.real)
             self.ds._tls_socks[len(self.ds.conns) - 1] = bs
